@@ -40,16 +40,16 @@ def time_limit(seconds: int):
     import time as _time
 
     old = signal.signal(signal.SIGALRM, handler)
-    prev = signal.alarm(0)                       # seconds left on an enclosing limit (0 = none)
-    signal.alarm(min(seconds, prev) if prev else seconds)
+    prev = signal.getitimer(signal.ITIMER_REAL)[0]      # seconds (float) left on an enclosing limit, 0.0 = none
+    signal.setitimer(signal.ITIMER_REAL, min(float(seconds), prev) if prev > 0 else float(seconds))
     t0 = _time.time()
     try:
         yield
     finally:
-        signal.alarm(0)
+        signal.setitimer(signal.ITIMER_REAL, 0)
         signal.signal(signal.SIGALRM, old)
-        if prev:                                 # re-arm the enclosing limit with what is left of it
-            signal.alarm(max(1, int(prev - (_time.time() - t0))))
+        if prev > 0:                             # re-arm the enclosing limit with what is left of it
+            signal.setitimer(signal.ITIMER_REAL, max(0.01, prev - (_time.time() - t0)))
 
 
 def canon_post(stmts) -> list:
